@@ -104,12 +104,16 @@ def run_wrapper(case, R):
     try:
         ref = compose(case['core'], case['ban'], Px, Pn, dict(kw))
     except Exception as e:
+        if not instr.is_library_exception(e):
+            raise
         R.undecided('C13.wrapper', f'primitive composition raised {type(e).__name__}')
         R.count(f'composition of {name} raised {type(e).__name__}: {str(e)[:80]}')
         return
     try:
         got = get_bf_vector(name, Px, Pn, **dict(kw))
     except Exception as e:
+        if not instr.is_library_exception(e):
+            raise
         R.fail('C13.wrapper', f'wrapper/raised/{case["core"].rstrip("0123456789")}', f'get_bf_vector({name!r}) raised {type(e).__name__} although the primitives succeed: {str(e)[:100]}', **info)
         return
     same = got.shape == ref.shape and np.array_equal(got, ref)
@@ -169,6 +173,8 @@ def run_stack(case, R):
         try:
             got = f(None, Pn_, a)
         except Exception as e:
+            if not instr.is_library_exception(e):
+                raise
             R.fail('C13.stack', 'stack/raised/mvdr', f'get_mvdr_vector raised {type(e).__name__} on atf {a.shape}: {str(e)[:100]}', **info)
             return
         ok = got.shape == a.shape
@@ -183,6 +189,8 @@ def run_stack(case, R):
         try:
             got = f(Px, Pn, a)
         except Exception as e:
+            if not instr.is_library_exception(e):
+                raise
             R.fail('C13.stack', f'stack/raised/{fn}', f'{fn} raised {type(e).__name__} on a stack {full}: {str(e)[:100]}', **info)
             return
         dv, ok = 0.0, True
@@ -191,6 +199,8 @@ def run_stack(case, R):
             try:
                 one = f(Px[idx][None], Pn[idx][None], a[idx][None])[0]
             except Exception as e:
+                if not instr.is_library_exception(e):
+                    raise
                 R.undecided('C13.stack', 'single problem raised')
                 return
             g = got[idx]
@@ -218,6 +228,8 @@ def run_phase(case, R):
     try:
         v = phase_correction(w if rng.uniform() < 0.5 else w.tolist())
     except Exception as e:
+        if not instr.is_library_exception(e):
+            raise
         R.fail('C13.phase', 'phase/raised', f'{type(e).__name__}: {str(e)[:100]}', **info)
         return
     R.check('C13.phase', np.array_equal(w, wb), 'phase/purity', 'phase_correction modified its argument')
@@ -279,6 +291,8 @@ def run_singular(case, R):
                    f'{which} raised AssertionError (non-finite SNR) with singular/zero PSDs', **info)
             continue
         except Exception as e:
+            if not instr.is_library_exception(e):
+                raise
             R.fail('C13.singular', f'singular/raised/{which}', f'{which} raised {type(e).__name__} with singular/zero PSDs: {str(e)[:100]}', **info)
             continue
         badbins = np.nonzero(~np.isfinite(w).all(-1))[0]
